@@ -37,6 +37,9 @@ def published_forms(ctx, cname, cm):
             v = o.value
             K = v.args[0].args[-1] if is_app(v, "H") and is_app(v.args[0], "cat") else None
             Ke = encoded_element(K) if K is not None else None
+            decs = {t._key: t for t in subterms(Ke) if is_app(t, ".bytes_to_element")} if Ke is not None else {}
+            if len(decs) == 1:          # what exactly is decoded is C05 D5's obligation
+                nin = ip.atom_e(list(decs.values())[0], "In")
             ok = Ke is not None and ip.elem(Ke) == Lin({nin: X}) + Lin({nunblind: -(X * W)})
             ctx.ob("K-form", cname, ok, "K = encode(x*(In - w*%s)) with In = bytes_to_element(payload)" % unblind if ok else
                    "shared element is %s, published: x*(In - w*%s)" % (ip.elem(Ke).show(ip.names()) if Ke is not None else None, unblind), o.site)
@@ -71,7 +74,7 @@ def check(ctx, world):
     include(ctx, world, "c17", "C17")
     include(ctx, world, "c14", "C14")
     include(ctx, world, "c15", "C15", keep=lambda o: not o.rule.endswith("-width") or o.rule in ("K1-width", "K4-width"))
-    include(ctx, world, "c18", "C18", keep=lambda o: not o.rule.startswith("D-"))
+    include(ctx, world, "c18", "C18", keep=lambda o: not o.rule.startswith("D-") and o.rule != "N-ctor-assert")
     include(ctx, world, "c08", "C08", keep=lambda o: o.rule in ("Z4", "Z3-total"))
     # B3 of C02: the password reaches the scalar unmodified (a wire-visible derivation)
     include(ctx, world, "c02", "C02", keep=lambda o: o.rule.startswith("B3"))
